@@ -95,15 +95,25 @@ structure Leaf1 (t : TreeImg) (xs : List Nat) (pid : Nat) : Prop where
 def sunk (t : TreeImg) (xs qs : List Nat) (pid : Nat) : TreeImg :=
   { t with blobs := qs.reverse ++ t.blobs, leaves := [⟨(sinkXs xs qs).map some, false, pid⟩] }
 
+/-- the key is not in the leaf yet: `replace_property_entry` deletes nothing -/
+theorem filter_ne_some (q : Nat) (xs : List Nat) (h : q ∉ xs) :
+    (xs.map some).filter (fun e => e != some q) = xs.map some := by
+  rw [List.filter_eq_self]
+  intro e he
+  obtain ⟨x, hx, rfl⟩ := List.mem_map.mp he
+  have : x ≠ q := fun h' => h (h' ▸ hx)
+  simpa using this
+
 theorem sinkOneA_eq (cfg : Cfg) (ps : PS) (t : TreeImg) (q : Nat) (xs : List Nat) (pid : Nat) (h : Leaf1 t xs pid)
-    (hcap : xs.length < cfg.leafCap) :
+    (hcap : xs.length < cfg.leafCap) (hq : q ∉ xs) :
     sinkOneA cfg ps t q =
       ((allocA ps).1 ++ [ioA (.pg (.blob t.key q) (allocA ps).2.2)] ++
           [ioA (.pg (.leaf t.key 0 ((insNat q xs).map some) false pid) pid)],
         (allocA ps).2.1, sunk t xs [q] pid) := by
   have hl := h.leaves
   unfold sinkOneA
-  simp only [hl, List.length_singleton, Nat.sub_self, List.getD_cons_zero, List.length_map, hcap, if_true,
+  simp only [hl, List.length_singleton, Nat.sub_self, List.getD_cons_zero, filter_ne_some q xs hq, List.length_map, hcap, if_true,
+    Nat.lt_irrefl, if_false, List.append_nil,
     insertSorted_map, setLeaf, sunk, sinkXs, List.reverse_singleton, List.singleton_append]
 
 def sinkEffs (key pid : Nat) : List Nat → List Nat → List PEff
@@ -123,16 +133,18 @@ variable {p0 : PImg} {live lo : Nat} {allowed covered : List Nat} {lv : LiveP}
 theorem pblk_sink (cfg : Cfg) :
     ∀ (qs : List Nat) (nd : Nat) (ps : PS) (t : TreeImg) (xs : List Nat) (pid : Nat),
       SameKey p0.hdr ps.pm → min ps.bm ps.pm.nextPage = nd → Leaf1 t xs pid → xs.length + qs.length ≤ cfg.leafCap →
+      qs.Nodup → (∀ q ∈ qs, q ∉ xs) →
       (t.key ≠ live ∨ (lv.Xi = [] ∧ SortedNat xs ∧ (∀ x ∈ xs, x ∈ allowed) ∧ (∀ x ∈ covered, x ∈ xs) ∧ ∀ q ∈ qs, q ∈ allowed)) →
       PBlk p0 live allowed covered lv lo nd ps (sinkA cfg ps t qs).1 (sinkEffs t.key pid xs qs) (nd + qs.length)
         (sinkA cfg ps t qs).2.1 ∧
       (sinkA cfg ps t qs).2.2 = sunk t xs qs pid
-  | [], nd, ps, t, xs, pid, hsk, hnp, hl, _, _ => by
+  | [], nd, ps, t, xs, pid, hsk, hnp, hl, _, _, _, _ => by
     refine ⟨by simpa [sinkA, sinkEffs] using PBlk.nil (live := live) (lo := lo) (allowed := allowed) (covered := covered) (lv := lv) hsk hnp, ?_⟩
     simp only [sinkA, sunk, sinkXs, List.reverse_nil, List.nil_append, ← hl.leaves]
-  | q :: qs, nd, ps, t, xs, pid, hsk, hnp, hl, hcap, hsafe => by
+  | q :: qs, nd, ps, t, xs, pid, hsk, hnp, hl, hcap, hnd, hfresh, hsafe => by
     have hcap1 : xs.length < cfg.leafCap := by simp at hcap; omega
-    have hone := sinkOneA_eq cfg ps t q xs pid hl hcap1
+    have hnd' := List.nodup_cons.mp hnd
+    have hone := sinkOneA_eq cfg ps t q xs pid hl hcap1 (hfresh q (by simp))
     obtain ⟨ba, hpid, _⟩ := pblk_alloc_eq (p0 := p0) (live := live) (lo := lo) (allowed := allowed) (covered := covered) (lv := lv) ps hsk hnp
     have bb := pblk_write (p0 := p0) (live := live) (lo := lo) (allowed := allowed) (covered := covered) (lv := lv) ba.sk ba.np
       (.blob t.key q) (allocA ps).2.2 trivial
@@ -162,7 +174,12 @@ theorem pblk_sink (cfg : Cfg) :
         · intro y hy
           exact (mem_insNat q y xs).mpr (Or.inr (h3 y hy))
     obtain ⟨br, hres⟩ := pblk_sink cfg qs (nd + 1) (allocA ps).2.1 (sunk t xs [q] pid) (insNat q xs) pid ba.sk ba.np
-      (leaf1_sunk hl [q]) (by rw [length_insNat]; simp at hcap; omega) hsafe'
+      (leaf1_sunk hl [q]) (by rw [length_insNat]; simp at hcap; omega) hnd'.2
+      (by
+        intro q' hq' hin
+        rcases (mem_insNat q q' xs).mp hin with rfl | hin
+        · exact hnd'.1 hq'
+        · exact hfresh q' (by simp [hq']) hin) hsafe'
     have hacts : (sinkA cfg ps t (q :: qs)).1 =
         (((allocA ps).1 ++ [ioA (.pg (.blob t.key q) (allocA ps).2.2)]) ++
           [ioA (.pg (.leaf t.key 0 ((insNat q xs).map some) false pid) pid)]) ++
